@@ -133,12 +133,66 @@ def notify_ids(n_per_dest, dests=2):
         loop.close()
 
 
+def notify_overlapping(r, rounds):
+    """Several notification bursts (1-4 events each, two eventgroups of one service) for the same subscribers IN FLIGHT AT
+    ONCE (asyncio.gather): per destination the ids on the wire still count 1, 2, 3, ... in the order transmitted."""
+    import asyncio
+    import ipaddress
+    loop = asyncio.new_event_loop()
+    asyncio.set_event_loop(loop)
+    try:
+        async def fake_gai(host, port, **kw):
+            return [(None, None, None, None, (host, port))]
+        loop.getaddrinfo = fake_gai
+        sent = []
+
+        class T:
+            def sendto(self, data, addr=None):
+                sent.append((bytes(data), addr))
+
+            def get_extra_info(self, key):
+                return ("192.0.2.1", 30501)
+
+        plan = []
+
+        async def go():
+            class Svc(V.SimpleService):
+                service_id = 0x4242
+                version_major = 1
+                version_minor = 0
+            svc = Svc(1)
+            svc.log.disabled = True
+            svc.transport = T()
+            egs = []
+            for g in (5, 6):
+                eg = V.SimpleEventgroup(svc, g)
+                eg.log.disabled = True
+                eg.values[1], eg.values[2], eg.values[3] = b"x", b"yz", b""
+                egs.append(eg)
+            eps = [H.IPv4EndpointOption(address=ipaddress.IPv4Address("10.0.0.%d" % (1 + k // 2)), l4proto=H.L4Protocols.UDP, port=4000 + k) for k in range(3)]
+            for _ in range(rounds):
+                burst = [(r.randrange(2), r.randrange(3) if r.random() < 0.4 else 0, [r.choice([1, 2, 3]) for _ in range(r.randint(1, 4))]) for _ in range(r.randint(2, 5))]
+                plan.append(burst)
+                await asyncio.gather(*[egs[g]._notify_single(eps[e], evs, "t") for g, e, evs in burst])
+        loop.run_until_complete(go())
+        per = {}
+        for data, addr in sent:
+            rest = data
+            while rest:
+                m, rest = H.SOMEIPHeader.parse(rest)
+                per.setdefault(addr, []).append(m.session_id)
+        return per, plan
+    finally:
+        asyncio.set_event_loop(None)
+        loop.close()
+
+
 def run(ctx):
     r = ctx.rng
     quick = ctx.tier == "quick"
     ctx.rule = ("interleavings of send_sd to the multicast group and 4 unicast peers with ~10% empty sends, including one run that walks one destination across the "
                 "received SD messages that reveal peer reboots interleaved with the sends (what is received must not disturb the ids sent), the 0xFFFF wrap-around and then contacts new destinations for the first time (quick: one wrap = 65535+ sends; thorough: the complete 2 x 65535 cycle, multicast and unicast) by issuing the sends, decoding every "
-                "transmitted datagram; the same for SimpleEventgroup._notify_single with two subscribers across a wrap; assign_outgoing compared with the model over long "
+                "transmitted datagram; the same for SimpleEventgroup._notify_single with two subscribers across a wrap; several notification bursts of two eventgroups in flight at once; assign_outgoing compared with the model over long "
                 "destination sequences; implementation trace judged by check_C08; non-trivial = distinct scenario")
     ctx.assumptions = ["calls from the loop thread only (the outgoing_lock is not modelled)", "entry lists are encodable (an encoding failure after the id was taken consumes the id: observation O1)"]
     scs = [send_scenario(r, r.randint(1, 60)) if k % 3 else reboot_interleaved(r) for k in range(60 if quick else 2000)]
@@ -166,6 +220,18 @@ def run(ctx):
             k = next(i for i, (a, b) in enumerate(zip(ids, want)) if a != b)
             ctx.violation("notification session ids of one subscriber are not 1,2,..,0xFFFF,1,..", dict(destination=repr(addr), position=k, got=ids[k], expected=want[k]))
         ctx.case(("notify", repr(addr), len(ids)), kind="notify-ids")
+
+
+    import random
+    r2 = random.Random(ctx.seed * 7919 + 8)       # a stream of its own
+    per, plan = notify_overlapping(r2, 40 if quick else 1500)
+    for addr, ids in per.items():
+        want = [((k - 1) % 65535) + 1 for k in range(1, len(ids) + 1)]
+        if ids != want:
+            k = next(i for i, (a, b) in enumerate(zip(ids, want)) if a != b)
+            ctx.violation("notification bursts in flight at once: the session ids one subscriber receives are not 1,2,3,.. in the order transmitted",
+                          dict(destination=repr(addr), position=k, got=ids[max(0, k - 3):k + 4], expected=want[max(0, k - 3):k + 4], bursts=plan[:6]))
+        ctx.case(("notify-overlap", repr(addr), len(ids)), kind="notify-overlapping-bursts")
 
 
 def replay(ctx, rp):
